@@ -229,6 +229,35 @@ func TestC19(t *testing.T) {
 		if !reflect.DeepEqual(m, twin) {
 			fail("round %d: observers modified the shared ordered map (differs from its untouched twin, unexported fields included)", round)
 		}
+		// leftover (inline) keys named like fields that are emitted - a state reached by interpolating a
+		// key, or built in code; yaml.v3 refuses to write it, so only the JSON marshalers observe it.
+		// They must not remove the shadowed keys from the object they marshal.
+		mkShadowed := func() *pipeline.Pipeline {
+			g := "grp"
+			cs := &pipeline.CommandStep{Command: "c", Label: "l", Key: "k", RemainingFields: map[string]any{"label": "shadowed", "command": "shadowed", "other": 1}}
+			gs := &pipeline.GroupStep{Group: &g, Key: "gk", Steps: pipeline.Steps{cs}, RemainingFields: map[string]any{"group": "shadowed", "steps": "shadowed", "key": "shadowed"}}
+			return &pipeline.Pipeline{Steps: pipeline.Steps{gs}, RemainingFields: map[string]any{"steps": "shadowed", "notify": []any{"x"}}}
+		}
+		sh, shTwin := mkShadowed(), mkShadowed()
+		shadowJSON, _ := json.Marshal(shTwin)
+		shTwin = mkShadowed()
+		var wg2 sync.WaitGroup
+		for g := 0; g < goroutines; g++ {
+			wg2.Add(1)
+			go func() {
+				defer wg2.Done()
+				for i := 0; i < 5; i++ {
+					if b, err := json.Marshal(sh); err != nil || string(b) != string(shadowJSON) {
+						errs.add(fmt.Sprintf("json.Marshal of the pipeline with shadowed leftover keys: %s (%v), want %s", b, err, shadowJSON))
+					}
+				}
+			}()
+		}
+		wg2.Wait()
+		cases += goroutines
+		if !reflect.DeepEqual(sh, shTwin) {
+			fail("round %d: the JSON marshalers modified the object they marshal (shadowed leftover keys removed?)", round)
+		}
 		// signatures differ only if the algorithm is randomised; EdDSA is deterministic
 		if !reflect.DeepEqual(p, ptwin) {
 			fail("round %d: observers modified the shared pipeline (differs from its untouched twin)", round)
